@@ -54,6 +54,9 @@ FamReduced(r, c) ==
      {Idx1(r, c)}
 \cup (IF r >= 2 /\ c >= 2 THEN {SpB(r, c)} ELSE {})
 \cup (IF r = c /\ r >= 2 THEN {Sym1(r), Spd(L2(r))} ELSE {})
+\* contents inflated by the Kronecker laws (thread independence): non-square, square, symmetric, sparse, L L^T
+FamInflate(r, c) == (IF <<r, c>> \in {<<2, 3>>, <<3, 2>>, <<3, 3>>, <<1, 3>>} THEN {Idx1(r, c)} ELSE {})
+               \cup (IF r = 3 /\ c = 3 THEN {Sym1(3), Spd(L2(3)), SpB(3, 3)} ELSE {})
 FamTiny(r, c) == IF r = 2 /\ c = 3 THEN {Idx1(r, c)} ELSE IF r = 2 /\ c = 2 THEN {Sym1(2)} ELSE {}
 
 \* second operand: same shape (sums, A B^T, A^T B) and transposed shape (A B, A^T B^T); symmetric
@@ -67,7 +70,8 @@ Companions(a) ==
 VecsFor(a) == {Vec(n, LAMBDA k : k + 1) : n \in {NR(a), NC(a)}} \cup {Vec(NC(a), LAMBDA k : Sign(k + 1) * (k + 1))}
 
 InitStates(level) ==
-  LET fam(r, c) == CASE level = "full" -> FamFull(r, c) [] level = "reduced" -> FamReduced(r, c) [] OTHER -> FamTiny(r, c)
+  LET fam(r, c) == CASE level = "full" -> FamFull(r, c) [] level = "reduced" -> FamReduced(r, c)
+                        [] level = "inflate" -> FamInflate(r, c) [] OTHER -> FamTiny(r, c)
       as == UNION {fam(sh[1], sh[2]) : sh \in Shapes}
   IN UNION {{[A |-> QM(a), B |-> QM(b), v |-> QV(x)] : b \in Companions(a), x \in VecsFor(a)} : a \in as}
 =============================================================================
